@@ -30,6 +30,8 @@ var strClasses = []string{"ascii", "2byte", "3byte", "4byte", "mixed"}
 func (c09) Cases(tier string, seed int64, kf *KnownFindings) []Case {
 	var cs []Case
 	add := func(c Case) { c.Sub = -1; cs = append(cs, c) }
+	add(Case{Kind: "bulk", Seed: Mix(seed, 4245)})
+	add(Case{Kind: "dup", Count: 5})
 	if tier == "quick" {
 		lens := []int{0, 1, 2, 15, 16, 30, 31, 32, 33, 255, 256, 1022, 1023, 1024, 1025, 2046, 2047, 2048, 2049, 2050, 4095, 4096, 4097, 4098, 6143, 6144, 6145, 6184}
 		for _, cl := range strClasses {
@@ -279,6 +281,43 @@ func (c09) Run(c Case, env *Env) Result {
 	var res Result
 	r := rand.New(rand.NewSource(Mix(c.Seed, 7) + int64(len(c.S))))
 	switch c.Kind {
+	case "bulk":
+		bulkCheck(env, &res, c, "string")
+		res.Sample(map[string]interface{}{"kind": "bulk", "what": "600 short multi-byte strings / 400 binaries in one list, strings behind 4070..4100 bytes of padding"})
+	case "dup":
+		// the same byte slice (and the same string) several times in one message
+		b := []byte{1, 2, 3, 4, 5}
+		vals := []interface{}{
+			&zoo.SlBin{V: [][]byte{b, {9}, b}}, &zoo.SlBin{V: [][]byte{{}, {}, nil}}, &zoo.MpStrBin{M: map[string][]byte{"a": b, "b": b}},
+			[]interface{}{b, b, "s", "s"}, &zoo.SlBin{V: [][]byte{b[:2], b[:2], b}},
+		}
+		for j, v := range vals {
+			if c.Sub >= 0 && c.Sub != j {
+				continue
+			}
+			res.Evals++
+			res.NT = append(res.NT, Hash64(fmt.Sprintf("dup|%d", j)))
+			cc := c
+			cc.Sub = j
+			o := roundTrip(v)
+			feats := []string{"binary", "same-slice-twice"}
+			switch {
+			case o.Panic != nil:
+				env.Viol(&res, Violation{Class: o.Panic.Class, Features: feats, Detail: o.Panic.Msg, Case: cc})
+			case o.EncErr != nil:
+				env.Viol(&res, Violation{Class: "enc-error", Features: feats, Detail: o.EncErr.Error(), Case: cc})
+			case o.DecErr != nil:
+				env.Viol(&res, Violation{Class: "dec-error", Features: feats, Detail: fmt.Sprintf("(%s) %v", hexClip(o.Wire), o.DecErr), Case: cc})
+			default:
+				if d := zoo.Equiv(v, o.Dec, zoo.EquivOpts{}); d != "" {
+					env.Viol(&res, Violation{Class: "mismatch:content", Features: feats, Detail: d, Case: cc})
+				}
+				if _, _, err := hspec.Parse(o.Wire); err != nil {
+					env.Viol(&res, Violation{Class: parseErrClass(err), Features: feats, Detail: fmt.Sprintf("(%s) %v", hexClip(o.Wire), err), Case: cc})
+				}
+			}
+		}
+		res.Sample(map[string]interface{}{"kind": "same byte slice several times in one message", "values": len(vals)})
 	case "strlens":
 		for j, l := range c.Vec {
 			if c.Sub >= 0 && j != c.Sub {
